@@ -22,6 +22,7 @@ RULE = ("case = one random class family (nested, mutually recursive, inherited, 
         "mashumaro/ and the generated code injects yields (sleep(0), switch interval 1 us). Oracle: every operation's "
         "outcome equals the outcome of the same operation on the eager twin; RecursionError (recursion limit 400) is a "
         "violation. distinct_nontrivial = distinct (family features, mode, operation order / schedule fingerprint).")
+RULE += " Additions: codec objects (with a default dialect) between the classes' own calls; per-class Config.orjson_options with an absolute oracle; nested plain dataclass with a never-defined annotation; plain nested dataclasses shared by two lazily compiled holders (first calls from 8 threads)."
 ASSUMPTIONS = ["only the interleavings actually produced by the yield injector are observed (fingerprints are reported)",
                "wall-clock never decides: a per-family watchdog only makes the case inconclusive"]
 BUDGET_S = {"quick": 240, "thorough": 1500}
